@@ -42,7 +42,7 @@ fn main() {
     std::panic::set_hook(Box::new(|_| {}));
     let mut rng = Rng::new(seed);
     let mut out: Vec<Violation> = Vec::new();
-    let (mut systems, mut runs, mut ok_runs, mut dnc_runs, mut tol_checks, mut multi) = (0, 0, 0, 0, 0, 0);
+    let (mut systems, mut runs, mut ok_runs, mut dnc_runs, mut tol_checks, mut multi, mut traced_runs) = (0, 0, 0, 0, 0, 0, 0);
     for i in 0..n {
         let mut sys = match i % 4 {
             0 => gen_planted(&mut rng, 6, 0.3, &SHAPES),
@@ -153,6 +153,34 @@ fn main() {
                 }
             }
         }
+        // rounds actually run (trace of the real code): no level may run more Newton rounds than the cap
+        for cap in [0usize, 1, 2, 3, 4, 6, 10] {
+            let mut s = sys.clone();
+            s.max_iterations = cap;
+            let (_res, events) = ezpz_verif_harness::trace::run_traced(&s, false);
+            traced_runs += 1;
+            let mut rounds = 0usize;
+            let mut worst = 0usize;
+            for e in &events {
+                match e {
+                    vh::TraceEvent::SolveInnerStart { .. } => rounds = 0,
+                    vh::TraceEvent::Iter { .. } => {
+                        rounds += 1;
+                        worst = worst.max(rounds);
+                    }
+                    _ => {}
+                }
+            }
+            if worst > cap {
+                out.push(Violation {
+                    property: "C14",
+                    what: format!("a level ran {worst} Newton rounds under the iteration cap {cap}: {}", describe(&solve(&s.reqs, s.guesses.clone(), s.config()))),
+                    signature: "rounds-exceed-cap".into(),
+                    system: Some(s.clone()),
+                    extra: String::new(),
+                });
+            }
+        }
         // tolerance honoured: planted, close start, single level, tight tolerance
         // ("a solvable sketch started near its solution": plants inside a kind's documented guard band,
         // where the linearisation is switched off while the error measure is live, are not solvable in
@@ -198,7 +226,7 @@ fn main() {
         }
     }
     println!(
-        "STATS {{\"systems\": {systems}, \"caps\": {}, \"runs\": {runs}, \"ok_runs\": {ok_runs}, \"did_not_converge_runs\": {dnc_runs}, \"multi_level_systems\": {multi}, \"tolerance_checks\": {tol_checks}, \"violations\": {}}}",
+        "STATS {{\"systems\": {systems}, \"caps\": {}, \"runs\": {runs}, \"ok_runs\": {ok_runs}, \"did_not_converge_runs\": {dnc_runs}, \"multi_level_systems\": {multi}, \"tolerance_checks\": {tol_checks}, \"round_count_runs\": {traced_runs}, \"violations\": {}}}",
         CAPS.len(),
         out.len()
     );
